@@ -182,7 +182,7 @@ def classify_reject(text, rep, info):
     return "unlisted:rust-rejects-pep695"
 
 
-def check_program(h, res, tag, _text, kinds, check_ranges=False, report_tree=True):
+def check_program(h, res, tag, _text, kinds, check_ranges=False, report_tree=True, arbitrate=None):
     index = int(tag.split(":")[1])
     built = build(index)
     if built is None:
@@ -216,6 +216,8 @@ def check_program(h, res, tag, _text, kinds, check_ranges=False, report_tree=Tru
         res.add(cls, {"path": re.sub(r"\[\d+\]", "[]", path)[-90:], "rust": a, "reference": b}, wit)
     if check_ranges:
         for cls, path, rr, pr, summ, rnode_, rparent_ in d.ranges[:20]:
+            if arbitrate is not None and arbitrate(cls, rr, rnode_, rparent_, text.encode(), wit):
+                continue
             res.add(cls, {"path": re.sub(r"\[\d+\]", "[]", path)[-90:], "rust": rr, "reference": pr, "node": summ}, wit)
     for n, parent, field in pyref.walk(pt):
         kinds[n["_t"]] += 1
